@@ -56,6 +56,7 @@ if __name__ == "__main__":
     if sys.argv[1] in ("wave3", "wave4", "wave5", "wave6", "wave7", "wave8", "wave9", "wave10", "wave11", "wave12", "wave13", "wave14"):
         g = sys.argv[2]
         wv = sys.argv[1][4:]
+        imported = False
         base = f"/tmp/seed{wv}/{g}/SEED"
         for k in sorted(int(x) for x in os.listdir(base) if x.isdigit()):
             pf = os.path.join(base, str(k), "PROPERTY")
@@ -75,7 +76,11 @@ if __name__ == "__main__":
             mp = f"/verif/seeded/{name}/meta.json"
             m = json.load(open(mp)); m["wave3_source"] = marker; m["wave"] = int(wv); json.dump(m, open(mp, "w"), indent=1)
             print(r)
-        sys.exit(0)
+            imported = True
+        sys.exit(0 if imported else 1)
+    if sys.argv[1].startswith("wave") and sys.argv[1] != "wave2":
+        print("unknown wave", sys.argv[1], file=sys.stderr)
+        sys.exit(1)
     if sys.argv[1] == "wave2":
         d = sys.argv[2]
         for k, (prop, name) in sorted(WAVE2[d].items()):
